@@ -6,4 +6,9 @@ import GSV.Ctl
 import GSV.Gen.Summator
 import GSV.Gen.Krigesum
 import GSV.Gen.Estimator
+import GSV.PyExpr
+import GSV.Gen.NormFormulas
+import GSV.Gen.CorFormulas
+import GSV.Gen.SpectralFormulas
+import GSV.Gen.TransformFormulas
 import GSV.Model.All
